@@ -3,7 +3,7 @@ use std::io::Write;
 use std::time::Instant;
 
 fn usage() -> ! {
-    eprintln!("usage: bsv <PROP> <quick|thorough> [--seed N] [--out FILE] [--shard i/n] [--known a,b] [--replay FILE] [--sub NAME] [--order N]");
+    eprintln!("usage: bsv <PROP> <quick|thorough> [--seed N] [--out FILE] [--shard i/n] [--known a,b] [--replay FILE] [--sub NAME] [--order N] [--trace FILE]");
     std::process::exit(2);
 }
 
@@ -79,6 +79,9 @@ fn main() {
             "--known" => ctx.known = v.split(',').filter(|s| !s.is_empty()).map(|s| s.to_string()).collect(),
             "--sub" => ctx.only_sub = Some(v),
             "--order" => ctx.order = v.parse().unwrap_or(0),
+            "--trace" => {
+                let _ = bsv::obs::TRACE.set(v);
+            }
             "--replay" => {
                 let txt = std::fs::read_to_string(&v).unwrap_or_else(|e| {
                     eprintln!("cannot read replay file {v}: {e}");
@@ -98,7 +101,22 @@ fn main() {
     ctx.seed = seed;
     install_panic_hook();
     let t0 = Instant::now();
-    if !bsv::props::run(&mut ctx) {
+    // the property runs on a thread with the default stack of spawned threads (2 MiB): what the worker
+    // and test threads of the library's users get
+    let (known_prop, mut ctx) = std::thread::Builder::new()
+        .name("property".into())
+        .stack_size(2 << 20)
+        .spawn(move || {
+            let ok = bsv::props::run(&mut ctx);
+            (ok, ctx)
+        })
+        .expect("spawn")
+        .join()
+        .unwrap_or_else(|_| {
+            eprintln!("the property thread panicked outside a case");
+            std::process::exit(2)
+        });
+    if !known_prop {
         eprintln!("unknown property {prop}");
         std::process::exit(2);
     }
